@@ -1,5 +1,6 @@
 import DL.Lemmas.RxBOctal
 import DL.Lemmas.RxSpecAtomEsc
+import DL.Lemmas.RxCompUni
 
 /-! # Annex B (no `u` flag): class escapes, back references, group names, `AtomEscape[~U, N]` -/
 namespace DL.Rx
@@ -11,21 +12,55 @@ variable {src : List Nat} {K : Bool × Nat}
 theorem consumeCharacterClassEscape_wb (n : Nat) (r : List Nat) (s : St) (h : BAt src K r s) :
     Wp (consumeCharacterClassEscape n s) (fun b s1 => KeepN s s1 ∧
       if b = true then ∃ r1, BAt src K r1 s1 ∧ RxSpecB.CharacterClassEscape r r1 ∧ s1.lastIntValue = -1
-      else BAt src K r s1) := by
+      else BAt src K r s1 ∧ ¬∃ r', RxSpecB.CharacterClassEscape r r') := by
   unfold consumeCharacterClassEscape
   rx6_auto
-  all_goals (try rx6_false)
-  all_goals (rx6_true; exact ⟨_, by rx6_at, ⟨_, rfl, by decide⟩, rfl⟩)
+  all_goals (try (rx6_true; exact ⟨_, by rx6_at, ⟨_, rfl, by decide⟩, rfl⟩))
+  rx6_falsen
+  rename_i h1 h2 h3 h4 h5 h6
+  rintro ⟨r', x, e, hx⟩
+  subst e
+  simp only [List.mem_cons, List.not_mem_nil, or_false] at hx
+  rcases hx with e | e | e | e | e | e <;> subst e
+  · exact h1 rfl
+  · exact h2 rfl
+  · exact h3 rfl
+  · exact h4 rfl
+  · exact h5 rfl
+  · exact h6 rfl
+
+theorem decimalEscape_unique {i r r' : List Nat} {v v' : Nat} (h : DecimalEscape i r v) (h' : DecimalEscape i r' v') :
+    r = r' ∧ v = v' := by
+  obtain ⟨ds, e, _, hds, hstop, hv⟩ := h
+  obtain ⟨ds', e', _, hds', hstop', hv'⟩ := h'
+  rw [e] at e'
+  obtain ⟨e1, e2⟩ := run_unique e' hds hds' hstop hstop'
+  subst e1 e2
+  exact ⟨rfl, by rw [hv, hv']⟩
 
 theorem consumeBackreference_wb (hN : K.2 < 2 ^ 62) (n : Nat) (r : List Nat) (s : St) (h : BAt src K r s) :
     Wp (consumeBackreference n s) (fun b s1 => Keep s s1 ∧
-      if b = true then ∃ r1, BAt src K r1 s1 ∧ RxSpecB.AtomEscape K.1 K.2 r r1 Attr.nil else BAt src K r s1) := by
+      if b = true then ∃ r1, BAt src K r1 s1 ∧ RxSpecB.AtomEscape K.1 K.2 r r1 Attr.nil
+      else BAt src K r s1 ∧ ¬∃ r' v', DecimalEscape r r' v' ∧ v' ≤ K.2) := by
   unfold consumeBackreference
   rx6_auto
-  all_goals (try rx6_false)
-  rename_i s1 hk r1 v hat hde hv hle
-  rx6_true
-  rw [hv, hat.ncp] at hle
-  exact ⟨r1, hat, RxSpecB.AtomEscape.decimal r r1 v hde (le_of_satI_le (N := K.2) hN hle)⟩
+  · rx6_falsen
+    rename_i hno
+    rintro ⟨r', v', ⟨ds, e, ⟨d, ds', e2, hnz⟩, _⟩, _⟩
+    subst e e2
+    exact hno d rfl hnz
+  · rx6_falsen
+    rename_i s1 hk r1 v hat hde hv hn _
+    rintro ⟨r', v', hde', hle⟩
+    obtain ⟨_, e⟩ := decimalEscape_unique hde hde'
+    subst e
+    apply hn
+    rw [hv, hat.ncp]
+    have : satI v ≤ (v : Int) := by unfold satI; split <;> omega
+    omega
+  · rename_i s1 hk r1 v hat hde hv hle
+    rx6_true
+    rw [hv, hat.ncp] at hle
+    exact ⟨r1, hat, RxSpecB.AtomEscape.decimal r r1 v hde (le_of_satI_le (N := K.2) hN hle)⟩
 
 end DL.Rx
